@@ -314,6 +314,10 @@ def run(tier, replay=None):
             n_base = r.randint(1, 5)
             n_alleles = G.gen_n_alleles(r, n_base)
             g = G.gen_genotype(r, ploidy, n_alleles, dup=0.6)
+            if i % 10 == 7:
+                # pooled samples: many copies, mostly duplicated haplotypes
+                ploidy = r.choice([8, 12, 20])
+                g = G.gen_genotype(r, ploidy, n_alleles, dup=0.9)
             big = (i % 40 == 13)
             if big:
                 # a large pool that is almost fixed for one haplotype: more than 127 copies of it
@@ -322,10 +326,11 @@ def run(tier, replay=None):
                 g = [list(major) for _ in range(ploidy - 2)] + [[r.randrange(2), r.randrange(2)] for _ in range(2)]
                 r.shuffle(g)
             reads, counts = G.gen_reads(r, n_alleles, r.randint(0, 6), haps=g if r.random() < 0.8 else None,
-                                        gap=r.choice([0.0, 0.2, 0.5]), style=r.choice(["encoded", "encoded", "free"]))
+                                        gap=r.choice([0.0, 0.2, 0.5]), style=r.choice(["encoded", "encoded", "free", "hard"]))
             if len(counts) == 0:
                 reads = np.full((1, n_base, max(n_alleles)), np.nan); counts = np.array([1], dtype=np.int64)
-            F = r.choice(INBREEDING); T = r.choice(TEMPS)
+            F = r.choice(INBREEDING)
+            T = r.choice(TEMPS) if r.random() < 0.6 else float(10 ** -r.uniform(0, 4))     # any ladder value in (1e-4, 1]
             U = int(np.prod(n_alleles)); logU = float(np.log(np.array(n_alleles)).sum())
             move = r.choice(["base", "base", "recomb", "dosage", "dosage_full"])
             if big:
@@ -401,6 +406,30 @@ def run(tier, replay=None):
             ok, key = same_kernel(ik, mk)
             if not ok:
                 chk.disagreement(f"{move} kernel impl != model", {**case, "at": str(key), "impl": ik.get(key, 0.0), "model": mk.get(key, 0.0)})
+            # the compiled move where its outcome does not depend on the draw (a single outcome of probability one)
+            sure = [k for k, v in ik.items() if v >= 1 - 1e-12]
+            if ok and len(sure) == 1 and ploidy <= 20:
+                g2 = garr.copy()
+                llk0 = float(log_likelihood(reads, garr, read_counts=counts))
+                mutation.random_choice, structural.random_choice = orig_m, orig_s      # the compiled code must see the real function
+                try:
+                    if move == "base":
+                        out = mutation.base_step(g2, reads, llk0, extra[0], extra[1], n_alleles[extra[1]], logU, inbreeding=F, temp=T,
+                                                 read_counts=counts, cache=None)
+                    else:
+                        out = structural.interval_step(g2, reads, llk0, logU, inbreeding=F, interval=np.array([extra[0], extra[1]]),
+                                                       step_type=extra[2], temp=T, read_counts=counts, cache=None)
+                    chk.count("compiled-move:deterministic-outcome")
+                    want_llk = float(log_likelihood(reads, g2, read_counts=counts))
+                    if G.canon_genotype(g2.tolist()) != sure[0] or not C.close_log(float(out[0]), want_llk):
+                        chk.violation(f"the compiled {move} move does not produce the only possible outcome / returns a likelihood that is "
+                                      "not the likelihood of the state it left", {**case, "after": g2.tolist(), "returned_llk": float(out[0]),
+                                                                                 "llk_of_state": want_llk, "expected_state": str(sure[0])},
+                                      f"C01/{move}/compiled")
+                except Exception as e:   # noqa: BLE001
+                    chk.violation(f"the compiled {move} move raises on a valid state: {type(e).__name__}: {e}", case, f"C01/{move}/compiled-raises")
+                finally:
+                    mutation.random_choice, structural.random_choice = rec_m, rec_s
 
         # ------------------------------------------------------------------ exchange move
         n_ex = max(3, n_cases // 5)
